@@ -235,19 +235,20 @@ def _pack_unpack(w: World, rep: Report):
               why=why)
 
 
-def _no_memo_in_tree_classes(w: World, rep: Report):
+def _no_memo_in_tree_classes(w: World, rep: Report, rule: str = 'C04.R4',
+                             markers=('commitment', 'unlocking_script', 'locking_script', 'root'), floor: int = 3):
     """Script / ScriptLeaf / ScriptNode objects are mutable and get re-parented (`ScriptNode(x, old_root)`, the
     prioritized builder): what they compute - commitment, root, locking and unlocking scripts - must be
     computed from the current fields on every call.  A method that stores a result on `self` outside the
     declared fields is a memo that goes stale when the tree changes."""
-    rep.rule('C04.R4', 'tree classes keep no derived state: outside __init__ no method stores to an attribute of self '
-             'other than a declared structural field', floor=3)
+    rep.rule(rule, 'these classes keep no derived state: outside __init__ no method stores to an attribute of self '
+             'other than a declared structural field, and no method result is memoised by a caching decorator', floor=floor)
     tools = w.repo.module('tools')
     n = 0
     for cname, cd in tools.classes.items():
         meths = [m for m in cd.body if isinstance(m, ast.FunctionDef)]
         names = {m.name for m in meths}
-        if not (names & {'commitment', 'unlocking_script', 'locking_script', 'root'}):
+        if not (names & set(markers)):
             continue
         declared = {st.target.id for st in cd.body if isinstance(st, ast.AnnAssign) and isinstance(st.target, ast.Name)}
         for m in meths:
@@ -259,6 +260,13 @@ def _no_memo_in_tree_classes(w: World, rep: Report):
         n += 1
         bad = []
         for m in meths:
+            # a caching decorator hands out one remembered (mutable) result for equal arguments: objects that get
+            # re-parented / edited afterwards are shared between unrelated callers
+            for d in m.decorator_list:
+                dn = (ast.unparse(d.func) if isinstance(d, ast.Call) else ast.unparse(d)).split('.')[-1]
+                if dn in ('lru_cache', 'cache', 'cached_property', 'memoize', 'memoized'):
+                    bad.append((m.name, f'@{dn}', m.lineno))
+        for m in meths:
             if m.name in ('__init__', '__post_init__'):
                 continue
             me = m.args.args[0].arg if m.args.args else 'self'
@@ -269,17 +277,19 @@ def _no_memo_in_tree_classes(w: World, rep: Report):
                 # a *computed* value stored on self (declared or not) is derived state as well
                 if isinstance(x, ast.Assign) and any(isinstance(t, ast.Attribute) and isinstance(t.value, ast.Name) and
                                                      t.value.id == me for t in x.targets) and \
-                        any(isinstance(c, ast.Call) for c in ast.walk(x.value)):
+                        any(isinstance(c, ast.Call) or (isinstance(c, ast.Attribute) and isinstance(c.value, ast.Name) and
+                                                        c.value.id == me) for c in ast.walk(x.value)):
                     t0 = [t for t in x.targets if isinstance(t, ast.Attribute)][0]
                     if (m.name, t0.attr, x.lineno) not in bad:
                         bad.append((m.name, t0.attr, x.lineno))
                 if isinstance(x, ast.Call) and isinstance(x.func, ast.Name) and x.func.id == 'setattr' and x.args and \
                         isinstance(x.args[0], ast.Name) and x.args[0].id == me:
                     bad.append((m.name, 'setattr', x.lineno))
-        rep.check('C04.R4', f'tools.{cname}|no-derived-state', not bad, line=bad[0][2] if bad else cd.lineno,
+        rep.check(rule, f'tools.{cname}|no-derived-state', not bad, line=bad[0][2] if bad else cd.lineno,
                   file='tapescript/tools.py',
-                  why='' if not bad else f'{cname}.{bad[0][0]} stores `self.{bad[0][1]}`: a remembered result is not '
-                  f'invalidated when the node is attached under a new parent or its script changes - proofs generated '
-                  f'afterwards stop at the old root / commit to the old script')
+                  why='' if not bad else f'{cname}.{bad[0][0]} ' + (f'is memoised with {bad[0][1]}' if bad[0][1].startswith('@')
+                                                                   else f'stores `self.{bad[0][1]}`') +
+                  ': a remembered result is not invalidated when the object is edited or attached elsewhere - what is '
+                  'generated afterwards (proofs, commitments, serialisations) describes the old state')
     if n == 0:
         raise AnalysisError('no tree class (commitment / unlocking_script / root) found in tools.py')
